@@ -201,7 +201,7 @@ def generated_cases(pid, seed, n):
         what = None
         if pid in ("C16", "C19") and rnd.random() < 0.7 or rnd.random() < 0.05:
             doc, what = gen.malform(rnd, doc)
-        files = pid in ("C07", "C12", "C20") and rnd.random() < 0.5 and safe_for_files(doc, opts)
+        files = pid in ("C07", "C12", "C15", "C20") and rnd.random() < 0.5 and safe_for_files(doc, opts)
         out.append(run.Case("g%d" % i, doc, opts, ev, partial, files, {"malform": what}))
     return out
 
